@@ -10,7 +10,7 @@
 //!  * formatter model `frag-fmt` vs `quiver_compiler::format_program` (byte for byte);
 //!  * the theorem's instance at run time: `frag-parse (frag-print w t)` = `t` with nothing left over.
 use super::strings::hx;
-use quiver_compiler::ast::{AccessSource, FieldValue, Program, Statement, Term, TupleName};
+use quiver_compiler::ast::{AccessSource, FieldValue, Literal, Program, Statement, Term, TupleName};
 use quiver_compiler::{format_program, parse};
 use qverif::{Ev, Model, Opts, Rng, catch};
 use serde_json::json;
@@ -18,6 +18,10 @@ use serde_json::json;
 #[derive(Clone, Debug, PartialEq, Eq)]
 pub enum T {
     Leaf(String),
+    /// integer literal, canonical decimal text
+    Int(String),
+    /// binary literal, lower-case hex of the bytes
+    Bin(String),
     /// tuple name (None = anonymous), fields (label, value)
     Tup(Option<String>, Vec<(Option<String>, T)>),
 }
@@ -26,6 +30,8 @@ impl T {
     pub fn sx(&self) -> String {
         match self {
             T::Leaf(n) => format!("(l {})", hx(n)),
+            T::Int(d) => format!("(i {d})"),
+            T::Bin(h) => format!("(b {})", if h.is_empty() { "-" } else { h }),
             T::Tup(name, fs) => {
                 let mut s = format!("(t {}", name.as_ref().map_or("_".to_string(), |n| hx(n)));
                 for (l, f) in fs {
@@ -44,6 +50,8 @@ impl T {
     pub fn flat(&self) -> String {
         match self {
             T::Leaf(n) => n.clone(),
+            T::Int(d) => d.clone(),
+            T::Bin(h) => format!("0x{h}"),
             T::Tup(Some(n), fs) if fs.is_empty() => n.clone(),
             T::Tup(name, fs) => format!(
                 "{}[{}]",
@@ -64,6 +72,16 @@ impl T {
     pub fn layout(&self, r: &mut Rng) -> String {
         match self {
             T::Leaf(n) => n.clone(),
+            // leading zeros and `-0` read as the same integer, upper-case hex as the same bytes
+            T::Int(d) => match r.below(6) {
+                0 if d == "0" => "-0".into(),
+                0 | 1 => match d.strip_prefix('-') {
+                    Some(m) => format!("-{}{m}", "0".repeat(1 + r.usize(3))),
+                    None => format!("{}{d}", "0".repeat(1 + r.usize(3))),
+                },
+                _ => d.clone(),
+            },
+            T::Bin(h) => format!("0x{}", if r.chance(1, 3) { h.to_uppercase() } else { h.clone() }),
             T::Tup(Some(n), fs) if fs.is_empty() && r.chance(2, 3) => n.clone(),
             T::Tup(name, fs) => {
                 let mut s = format!("{}[", name.as_deref().unwrap_or(""));
@@ -138,9 +156,40 @@ fn tuple_name(r: &mut Rng) -> String {
     s
 }
 
+fn int_text(r: &mut Rng) -> String {
+    let digits = match r.below(6) {
+        0 => "0".to_string(),
+        1 => format!("{}", r.below(10)),
+        2 | 3 => format!("{}", r.below(100000)),
+        4 => "18446744073709551616".into(),
+        _ => {
+            let mut s = format!("{}", 1 + r.below(9));
+            for _ in 0..r.usize(45) {
+                s.push((b'0' + r.below(10) as u8) as char);
+            }
+            s
+        }
+    };
+    if digits != "0" && r.chance(1, 3) { format!("-{digits}") } else { digits }
+}
+
+fn bin_text(r: &mut Rng) -> String {
+    let n = match r.below(5) {
+        0 => 0,
+        1..=3 => 1 + r.usize(4),
+        _ => 5 + r.usize(30),
+    };
+    r.bytes(n).iter().map(|b| format!("{b:02x}")).collect()
+}
+
 pub fn gen_term(r: &mut Rng, depth: usize) -> T {
     if depth == 0 || r.chance(2, 5) {
-        return if r.chance(1, 4) { T::Tup(Some(tuple_name(r)), vec![]) } else { T::Leaf(name(r)) };
+        return match r.below(8) {
+            0 | 1 => T::Tup(Some(tuple_name(r)), vec![]),
+            2 | 3 => T::Int(int_text(r)),
+            4 => T::Bin(bin_text(r)),
+            _ => T::Leaf(name(r)),
+        };
     }
     let n = match r.below(10) {
         0 => 0,
@@ -163,6 +212,8 @@ pub fn gen_term(r: &mut Rng, depth: usize) -> T {
 
 fn term_of(t: &Term) -> Option<T> {
     match t {
+        Term::Literal(Literal::Integer(v)) => Some(T::Int(v.to_string())),
+        Term::Literal(Literal::Binary(bytes)) => Some(T::Bin(bytes.iter().map(|b| format!("{b:02x}")).collect())),
         Term::Access(a) => match (&a.source, a.accessors.is_empty()) {
             (Some(AccessSource::Identifier(n)), true) => Some(T::Leaf(n.clone())),
             _ => None,
